@@ -654,6 +654,25 @@ class Capture(io.TextIOBase):
         pass
 
 
+class BufferedCapture(Capture):
+    """a buffered stream (what sys.stdout is when it is a file or a pipe): text reaches the
+    sink only when flush() is called.  Used for the clause "has all been written when the script
+    ends" only — order relative to device commands is judged with the unbuffered capture."""
+
+    def __init__(self, events):
+        Capture.__init__(self, events)
+        self.pending = []
+
+    def write(self, s):
+        self.pending.append(s)
+        return len(s)
+
+    def flush(self):
+        for s in self.pending:
+            Capture.write(self, s)
+        del self.pending[:]
+
+
 class Real:
     def __init__(self):
         self.net = None
@@ -675,13 +694,13 @@ class Real:
                 out.append(('dev', label))
         return out
 
-    def run_jobs(self, sources, same_job=False, between=None):
+    def run_jobs(self, sources, same_job=False, between=None, buffered=False):
         """returns (trace, notes).  notes: compile errors / escaped exceptions"""
         from bardolph.controller.script_job import ScriptJob
         from bardolph.parser.parse import Parser
         net = self.process()
         notes = []
-        cap = Capture(net.events)
+        cap = BufferedCapture(net.events) if buffered else Capture(net.events)
         old = sys.stdout
         sys.stdout = cap
         try:
@@ -704,6 +723,10 @@ class Real:
                         notes.append(('compile-error', idx, job.compile_errors))
                         continue
                     job.execute()
+                    if buffered and cap.pending:
+                        # the script has ended and part of its output is still in the buffer
+                        notes.append(('unflushed', idx, ''.join(cap.pending)))
+                        cap.flush()
                 except Exception as ex:  # noqa
                     notes.append(('raised', idx, repr(ex)))
         finally:
@@ -903,6 +926,20 @@ def main():
                 what = 'stdout is {!r}, documented {!r}'.format(text_of(got)[:80], text_of(want)[:80])
             chk.violation(sig, what + ' for ' + ' / '.join(
                 ' '.join(show_stmt(s) for s in j) for j in case['jobs'])[:300], replay_obj)
+        if ci % 3 == 0 and not notes:
+            # "has all been written when the script ends", on a buffered stream
+            got_b, notes_b = real.run_jobs(sources, same_job=case['same_job'], buffered=True)
+            stats['buffered_runs'] = stats.get('buffered_runs', 0) + 1
+            left = [n for n in notes_b if n[0] == 'unflushed']
+            if left:
+                chk.violation('stdout-not-flushed-at-script-end',
+                              'when the script ended {!r} had not been written to a buffered standard '
+                              'output (of {!r})'.format(left[0][2][:60], text_of(want)[:80]),
+                              dict(replay_obj, notes=notes_b, stream='buffered'))
+            elif text_of(got_b) != text_of(got):
+                chk.violation('stdout-bytes:buffered-stream', 'on a buffered standard output the text is {!r} '
+                              'instead of {!r}'.format(text_of(got_b)[:80], text_of(got)[:80]),
+                              dict(replay_obj, stream='buffered'))
         if ci < 4:
             chk.sample({'script': sources[0][len(PROLOGUE):], 'stdout': text_of(got)})
         # model
